@@ -19,8 +19,9 @@ import (
 // and it computes the effective (inherited) attributes of every leaf.
 
 type leaf struct {
-	ref pdf.Reference
-	raw pdf.Dict
+	ref    pdf.Reference
+	parent pdf.Reference
+	raw    pdf.Dict
 	// eff holds the effective value of each inheritable key (own value, else
 	// the nearest ancestor's); keys without a value are missing.
 	eff map[pdf.Name]pdf.Object
@@ -132,7 +133,7 @@ func (wk *walker) walkPages(ref pdf.Reference, node pdf.Dict, inh map[pdf.Name]p
 			}
 			total += n
 		case "Page":
-			lf := leaf{ref: kref, raw: child, eff: map[pdf.Name]pdf.Object{}, effective: pdf.Dict{}}
+			lf := leaf{ref: kref, parent: ref, raw: child, eff: map[pdf.Name]pdf.Object{}, effective: pdf.Dict{}}
 			for k, v := range child {
 				if k != "Parent" {
 					lf.effective[k] = v
@@ -194,7 +195,7 @@ func num(obj pdf.Object) (float64, bool) {
 	return 0, false
 }
 
-func checkBox(r *pdf.Reader, name string, obj pdf.Object, present bool, want *[4]int) error {
+func checkBox(r *pdf.Reader, name string, obj pdf.Object, present bool, want *[4]float64) error {
 	if want == nil {
 		if present {
 			return fmt.Errorf("effective /%s is %s, the page was given none", name, pdf.AsString(obj))
@@ -214,7 +215,8 @@ func checkBox(r *pdf.Reader, name string, obj pdf.Object, present bool, want *[4
 	}
 	for i, e := range arr {
 		v, ok := num(e)
-		if !ok || v != float64(want[i]) {
+		// exact: pdf.Format keeps the full float64 value of a Real
+		if !ok || v != want[i] {
 			return fmt.Errorf("effective /%s is %s, the page was given %v", name, pdf.AsString(res), *want)
 		}
 	}
@@ -224,12 +226,14 @@ func checkBox(r *pdf.Reader, name string, obj pdf.Object, present bool, want *[4
 // checkEffective compares the effective MediaBox, CropBox, Rotate and
 // Resources of a leaf with what the page was given.
 func checkEffective(r *pdf.Reader, id int, at Attr, version int, lf leaf) error {
-	var wantMedia, wantCrop *[4]int
+	var wantMedia, wantCrop *[4]float64
 	if at.Media < 3 {
-		wantMedia = &mediaBoxes[at.Media]
+		b := mediaBoxOf(at)
+		wantMedia = &b
 	}
 	if at.Crop > 0 {
-		wantCrop = &cropBoxes[at.Crop-1]
+		b := cropBoxOf(at)
+		wantCrop = &b
 	}
 	mb, has := lf.eff["MediaBox"]
 	if err := checkBox(r, "MediaBox", mb, has, wantMedia); err != nil {
